@@ -141,4 +141,31 @@ theorem as_float_twin_close (m a : ℤ) (hm : Mult m) (ha : fits64 a) :
     rw [e1]; exact h3
   linarith
 
+/-- **the domain of f128.From on a float, stated on the INPUT**: a finite float whose scaled magnitude stays two raw units
+    below `2^127` converts without saturation -/
+theorem f128_from_defined (p : ℕ × ℤ) (hp : p ∈ Facts.fixedConfigs) (s : Bool) (m : ℕ) (e : ℤ)
+    (hb : (m : ℚ) * (2 : ℚ) ^ e * (p.2 : ℚ) + 2 ≤ 2 ^ 127) :
+    ∃ r, F128.fromFloat p.2 p.1 (.fin s m e) = some r ∧ F128.minRaw < r ∧ r < F128.maxRaw := by
+  have htab : ∀ q ∈ Facts.fixedConfigs, q.2 = (10 : ℤ) ^ q.1 := by decide
+  have hm := htab p hp
+  rw [hm] at hb ⊢
+  generalize p.1 = D at *
+  simp only [F128.fromFloat]
+  rw [parseDigits_eq]
+  have g := f128_from_mag D m e
+  generalize F128.textDigits D m e / 10 = v at *
+  push_cast at hb
+  obtain ⟨g1, g2⟩ := abs_le.mp g
+  have hv : (v : ℚ) < 2 ^ 127 - 1 := by linarith
+  have hvn : v < 2 ^ 127 - 1 := by
+    have : (v : ℚ) < ((2 ^ 127 - 1 : ℕ) : ℚ) := by
+      rw [Nat.cast_sub (Nat.one_le_two_pow)]; push_cast; exact hv
+    exact_mod_cast this
+  refine ⟨if s then -(v : ℤ) else (v : ℤ), ?_, ?_, ?_⟩
+  · congr 1
+    unfold F128.clamp F128.maxRaw F128.minRaw
+    cases s <;> simp <;> omega
+  · unfold F128.minRaw; cases s <;> simp <;> omega
+  · unfold F128.maxRaw; cases s <;> simp <;> omega
+
 end Fixed.FloatLemmas
